@@ -281,6 +281,7 @@ func c10Emission(c *Ctx) {
 	if fn == nil {
 		return
 	}
+	declFn := fn
 	// the signature may be built by a private helper of generateInjectorDecl: the rules follow the parameter fields
 	for _, f2 := range family(L, fn) {
 		if f2.Parent() != nil || f2 == fn {
@@ -345,6 +346,30 @@ func c10Emission(c *Ctx) {
 	c.check(okParam, "C10.4", "generateInjectorDecl:parameter-field", L.pos(fn.Pos()), "each parameter is <allocated name of injector.Args[i].Param> <injector.Args[i].ASTTypeExpr>, for every i in order", strings.Join(why, " ; "))
 
 	// results: error field exactly under IsReturnError; first result is the requested type's expression
+	// (the results may be built in the declaration function itself while the parameters come from a helper, or vice versa)
+	resFn := fn
+	for _, cand := range append([]*ssa.Function{declFn}, family(L, declFn)...) {
+		if cand.Parent() != nil {
+			continue
+		}
+		for _, a := range appendsIn(L, cand) {
+			if elems, ok := variadicElems(a.call.Common().Args[1]); ok && len(elems) == 1 {
+				if al, ok := resolve(elems[0]).(*ssa.Alloc); ok {
+					if nm, _ := isAstNodeType(al.Type()); nm == "Field" {
+						sx := newSym(L, map[string]bool{})
+						sx.maxD = 0
+						for _, st := range storesInto(al) {
+							if fa, ok := st.Addr.(*ssa.FieldAddr); ok && fieldKey(fa) == "go/ast.Field.Type" && strings.Contains(strings.Join(sx.eval(st.Val), "|"), "Return.ASTTypeExpr(") {
+								resFn = cand
+							}
+						}
+					}
+				}
+			}
+		}
+	}
+	fn = resFn
+	c.seen(fnName(fn))
 	var errAppend, retAppend *ssa.Call
 	for _, a := range appendsIn(L, fn) {
 		elems, ok := variadicElems(a.call.Common().Args[1])
